@@ -200,6 +200,9 @@ void CDNS::CdnsDecoder::skip_item()
                                             std::to_string(item_length)).c_str());
             }
             read_int(item_length);
+            // A tag is followed by the data item it applies to
+            if (cbor_type == CborType::TAG)
+                skip_item();
             break;
 
         case CborType::SIMPLE:
